@@ -133,7 +133,8 @@ class Th:
                     flat[j] = 1.0 if name == "L" else 0.0
                 k += 1
             vals[name] = a
-        vals["precision"] = np.array({"gradedA": 2.0, "bump": 2.0, "gradedB": 0.125}.get(base, 1.0))
+        # precisions from both far ends as well (a hand-built or reloaded sample is not bound by the sampler's clipping)
+        vals["precision"] = np.array({"gradedA": 2.0, "bump": 2.0, "gradedB": 3e6, "zero": 1e-9}.get(base, 1.0))
         if base in ("onehot", "bump"):
             name, idx = pat[1], tuple(pat[2])
             if name == "precision":
